@@ -361,11 +361,7 @@ def random_traces(ctx, r, ntraces, length, configs):
     ctx.add_tlc(res, label)
     rejected = {}
     if not res.ok:
-      import re
-      m = re.search(r'<<"REJECT", (.*?)>>\n', res.stdout, re.S)
-      if not m:
-        raise tlc.MachineryError(f'trace validation failed without a REJECT line ({label}):\n' + res.stdout[-2000:])
-      rejected = tlaval.parse_value(m.group(1))
+      rejected = tlc.parse_rejects(res, label)
     for t, evs in enumerate(traces):
       ctx.traces += 1
       ctx.case(key=(label, t), nontrivial=any(e['op'] == 'sample' and e['res'] == 'batch' for e in evs),
